@@ -10,3 +10,5 @@ Definition hdr_ccrx := [Byte.x48;Byte.x79;Byte.x73;Byte.x74;Byte.x65;Byte.x72;By
 Definition hdr_padding := [Byte.x48;Byte.x79;Byte.x73;Byte.x74;Byte.x65;Byte.x72;Byte.x69;Byte.x61;Byte.x2d;Byte.x50;Byte.x61;Byte.x64;Byte.x64;Byte.x69;Byte.x6e;Byte.x67].
 Definition status_auth_ok : N := 233%N.
 Definition frame_type_tcp_request : N := 1025%N.
+Definition auth_resp_pad_min : N := 256%N.
+Definition auth_resp_pad_max : N := 2048%N.
